@@ -162,6 +162,179 @@ def check_strings(ck, gvh, oracle):
     ck.cov["for_string_Go!=S"] = nbad
 
 
+# whole programs: control expressions given as variables, bodies that assign to them --------------------------------
+def hxv(tok):
+    """our value token -> hx canonical value"""
+    if tok[0] == "I":
+        return "i%d" % N.val_int(tok)
+    if tok[0] == "F":
+        return "fnan" if tok == "Fnan" else "f" + tok[1:]
+    if tok[0] == "S":
+        return "s" + (tok[1:] if tok != "S-" else "-")
+    raise ValueError(tok)
+
+
+def tname(tok):
+    return "s" + {"I": b"integer", "F": b"float", "S": b"string"}[tok[0]].hex()
+
+
+PROG_STRS = {"1": 1, "3": 3, "2": 2}
+
+
+def prog_num(tok, as_float):
+    """the number a control value denotes (strings converted); as_float: converted to float (float loop)"""
+    if tok[0] == "S":
+        x = PROG_STRS[bytes.fromhex(tok[1:]).decode()]
+        return N.F(float(x)) if as_float else N.I(x)
+    if tok[0] == "I" and as_float:
+        return N.F(float(N.val_int(tok)))
+    return tok
+
+
+def manual_triple(a, b, c):
+    """(start, limit, step) as the manual's loop sees them: a string start/step (or a float one) makes a float loop"""
+    int_loop = a[0] == "I" and c[0] == "I"
+    return (prog_num(a, not int_loop), prog_num(b, False), prog_num(c, not int_loop))
+
+
+PCAP = 8
+KINDS = ["local", "upvalue", "global", "field", "param", "mixed"]
+BODIES = ["none", "set_limit", "set_step", "set_start", "set_i", "set_all"]
+SET = {"S": "I64", "L": "I2", "T": "I4"}      # what the body assigns (100, 2, 4)
+
+
+def build_program(kind, body):
+    names = {"local": ("S", "L", "T"), "upvalue": ("S", "L", "T"), "param": ("S", "L", "T"),
+             "global": ("GS", "GL", "GT"), "field": ("t.s", "t.l", "t.t"), "mixed": ("S", "GL", "t.t")}[kind]
+    S, L, T = names
+    asg = []
+    if body in ("set_limit", "set_all"):
+        asg.append("%s = 2" % L)
+    if body in ("set_step", "set_all"):
+        asg.append("%s = 4" % T)
+    if body in ("set_start", "set_all"):
+        asg.append("%s = 100" % S)
+    if body in ("set_i", "set_all"):
+        asg.append("i = i * 3; i = nil")
+    loop = ("local n = 0\nfor i = %s, %s, %s do\n  emit(i)\n  n = n + 1\n  %s\n  if n >= %d then break end\nend\n" % (S, L, T, "; ".join(asg), PCAP))
+    after = "emit('after', %s, math.type(%s) or type(%s), %s, math.type(%s) or type(%s), %s, math.type(%s) or type(%s))\n" % (S, S, S, L, L, L, T, T, T)
+    if kind == "local":
+        return "local va, vb, vc = ...\nlocal S, L, T = va, vb, vc\n" + loop + after
+    if kind == "upvalue":
+        return "local va, vb, vc = ...\nlocal S, L, T = va, vb, vc\nlocal function run()\n" + loop + "end\nrun()\n" + after
+    if kind == "param":
+        return "local function run(S, L, T)\n" + loop + after + "end\nrun(...)\n"
+    if kind == "global":
+        return "GS, GL, GT = ...\n" + loop + after
+    if kind == "field":
+        return "local va, vb, vc = ...\nlocal t = {s = va, l = vb, t = vc}\n" + loop + after
+    return "local va, vb, vc = ...\nlocal S = va\nGL = vb\nlocal t = {t = vc}\n" + loop + after
+
+
+def build_nested(kind):
+    head = "local va, vb = ...\nlocal n = vb\n"
+    core = "for i = va, n do emit(i) for j = va, n do emit(j) end end\nfor k = 4, n, -1 do emit(k) end\n"
+    after = "emit('after', n, math.type(n) or type(n))\n"
+    if kind == "upvalue":
+        return head + "local function run()\n" + core + "end\nrun()\n" + after
+    return head + core + after
+
+
+def check_programs(ck, gvh, oracle):
+    starts = ["I1", N.F(0.5), "S31"]
+    limits = ["I5", "I3", N.F(2.5), N.F(4.0), "S33", N.F(2.0 ** 63)]
+    steps = ["I1", "I2", N.F(0.5), "S31", "I-1"]
+    progs = []      # (kind of program, source, args, descriptor)
+    for kind in KINDS:
+        for body in BODIES:
+            src = build_program(kind, body)
+            for a in starts:
+                for b in limits:
+                    for c in steps:
+                        progs.append(("single", src, (a, b, c), (kind, body)))
+    for kind in ("local", "upvalue"):
+        src = build_nested(kind)
+        for a in ("I1", N.F(0.5), "I2"):
+            for b in ("I3", N.F(2.5), "S33", "I5", N.F(3.0)):
+                progs.append(("nested", src, (a, b), (kind, "nested")))
+    # oracle: the manual's sequence for every numeric triple needed
+    need = {}
+    for what, src, args, _ in progs:
+        if what == "single":
+            need[manual_triple(*args)] = None
+        else:
+            need[manual_triple(args[0], args[1], "I1")] = None
+            need[manual_triple("I4", args[1], "I-1")] = None
+    keys = list(need)
+    olines = ["p%d %s %s %s %d plain" % (i, k[0], k[1], k[2], PCAP) for i, k in enumerate(keys)]
+    _, mo, _ = vlib.run_lines(oracle, ["for"], olines, timeout=600)
+    if len(mo) != 2 * len(keys):
+        ck.violation("for/programs: oracle crashed", {"kind": "oracle-crash"}, no_input=True)
+        return
+    for i, k in enumerate(keys):
+        st, _, tr = parse_out(mo[2 * i + 1])[1][2:].partition(" T:")
+        need[k] = (st, [] if tr == "-" else [hxv(v) for v in tr.split(";")])
+    glines = []
+    for i, (what, src, args, _) in enumerate(progs):
+        glines.append("g%d %s args=%s" % (i, src.encode().hex(), ",".join(hxv(a) for a in args)))
+    rc, impl, err = vlib.run_lines(gvh, ["prog"], glines, timeout=900)
+    if rc != 0 or len(impl) != len(progs):
+        ck.violation("gvh-num prog crashed or produced %d/%d lines" % (len(impl), len(progs)), {"kind": "crash", "stderr": err[-1500:]})
+        return
+    after_tag = "s" + b"after".hex()
+    nbad = 0
+    rep = {}
+    for i, (what, src, args, desc) in enumerate(progs):
+        f = impl[i].split(" ")
+        status, trace = f[1], f[2][2:]
+        ck.case("prog %s %s %s" % (desc[0], desc[1], ",".join(args)), True)
+        ck.count("prog:kind:" + desc[0])
+        ck.count("prog:body:" + desc[1])
+        if what == "single":
+            a, b, c = args
+            st, seq = need[manual_triple(a, b, c)]
+            if st.startswith("E"):
+                want_status, want = "error", None
+            else:
+                want_status = "ok"
+                ran = len(seq) > 0
+                body = desc[1]
+                fin = {"S": a, "L": b, "T": c}
+                if ran:
+                    if body in ("set_limit", "set_all"):
+                        fin["L"] = SET["L"]
+                    if body in ("set_step", "set_all"):
+                        fin["T"] = SET["T"]
+                    if body in ("set_start", "set_all"):
+                        fin["S"] = SET["S"]
+                ev = seq + [",".join([after_tag] + [x for k in ("S", "L", "T") for x in (hxv(fin[k]), tname(fin[k]))])]
+                want = ";".join(ev)
+        else:
+            a, b = args
+            st1, seq = need[manual_triple(a, b, "I1")]
+            st2, down = need[manual_triple("I4", b, "I-1")]
+            ev = []
+            for v in seq:
+                ev.append(v)
+                ev += seq
+            ev += down
+            ev.append(",".join([after_tag, hxv(b), tname(b)]))
+            want_status, want = "ok", ";".join(ev)
+        ok = (status == want_status) and (want is None or trace == want)
+        if not ok:
+            nbad += 1
+            key = desc[0] + ":" + desc[1]
+            if rep.setdefault(key, 0) < 1 and len(rep) <= 6:
+                rep[key] += 1
+                ck.violation("for loop program (%s variables, body %s, values %s): implementation gives [%s %s], the manual's loop on private copies of the three values gives [%s %s]"
+                             % (desc[0], desc[1], ",".join(args), status, trace[:200], want_status, (want or "")[:200]),
+                             {"kind": "Go!=S", "engine": "num", "mode": "prog", "source": src, "args": list(args), "impl": impl[i][:600], "expected_trace": want,
+                              "theorems": ["C16_expressions_evaluated_once", "C16_body_assignment_harmless", "C16_control_registers_private"]})
+    ck.sample({"program": progs[7][1], "args": list(progs[7][2]), "impl": impl[7][:200]})
+    ck.cov["for_program_cases"] = len(progs)
+    ck.cov["for_program_Go!=S"] = nbad
+
+
 def run(tier, seed):
     ck = vlib.Check("C16", tier, seed, level="proof")
     # VERIF_NUM_OVERLAY / VERIF_NUM_TAG: mutation experiments only (go build -overlay, separate binary name)
@@ -258,6 +431,7 @@ def run(tier, seed):
                       "theorems_no_longer_about_this_code": ["C16_int_loop_sequence", "C16_int_loop_terminates_within_count", "C16_int_loop_never_wraps"]},
                      no_input=True)
     check_strings(ck, gvh, oracle)
+    check_programs(ck, gvh, oracle)
     obl.join()
     ok_obl = obl.ok
     if not ok_obl:
@@ -274,7 +448,9 @@ def run(tier, seed):
              "an eleventh with the operands as literals; + random triples; non-trivial = at least one iteration or an error; distinct by (start, limit, step, mode)" % (len(LAT), CAP),
         trusted_base=TRUSTED,
         assumptions=["iteration capped at %d (the theorems cover the unbounded loop)" % CAP,
-                     "numeric strings / non-numbers as loop operands: a separate family of %d triples (check_strings)" % ck.cov.get("for_string_cases", 0)])
+                     "numeric strings / non-numbers as loop operands: a separate family of %d triples (check_strings)" % ck.cov.get("for_string_cases", 0),
+                     "whole programs with the control expressions given as locals / upvalues / parameters / globals / table fields, bodies assigning to them and to "
+                     "the loop variable, the variables read back after the loop, nested loops sharing a limit local: %d programs (check_programs)" % ck.cov.get("for_program_cases", 0)])
 
 
 def replay(path, seed):
@@ -282,6 +458,13 @@ def replay(path, seed):
     ck = vlib.Check("C16", "quick", seed)
     gvh, _ = ck.build_gvh(pkg="./cmd/gvh-num", name="gvh_num")
     oracle = N.cached_oracle(ck)
+    if r.get("mode") == "prog":
+        line = "r %s args=%s" % (r["source"].encode().hex(), ",".join(hxv(a) for a in r["args"]))
+        _, a, _ = vlib.run_lines(gvh, ["prog"], [line])
+        print(r["source"])
+        print("impl    :", a[0] if a else None)
+        print("expected:", r.get("expected_trace"))
+        return 0
     line = "r " + r["line"]
     _, a, _ = vlib.run_lines(gvh, ["for"], [line])
     _, b, _ = vlib.run_lines(oracle, ["for"], [line])
